@@ -68,7 +68,7 @@ Types == << Struct(<<Field(A_, Prim("string")), Field(Id, Prim("int")), Field(AE
                      Field(Rel(<<Step("child", T_name("", <<"e">>)), Step("preceding", T_name("", <<"d">>))>>), Slice(Prim("int")))>>),
             \* values beyond 32 bits: 2^63 fits uint64 only, 2^40 fits both 64-bit kinds
             Struct(<<Field(NumE(Pow2(1, 63)), Prim("uint64")), Field(NumE(Pow2(1, 40)), Prim("int64")), Field(NumE(Pow2(1, 40)), Prim("uint64")),
-                     Field(NegE(NumE(Pow2(1, 40))), Prim("int64")), Field(NumE(Pow2(1, 63)), Slice(Prim("uint64"))),
+                     Field(NegE(NumE(Pow2(1, 40))), Prim("int64")), Field(NumE(Pow2(1, 63)), Ptr(Ptr(Prim("uint64")))),
                      Field(NumE(NamedNum("three62")), Prim("uint64")), Field(NumE(NamedNum("three62")), Ptr(Prim("uint64")))>>),
             \* a bare @x tag, evaluated at an element that also has a namespaced attribute of that local name (written first)
             Struct(<<Field(B_, Struct(<<Field(Rel(<<Step("attribute", T_name("", <<"x">>))>>), Prim("string")),
@@ -94,6 +94,10 @@ Res == Eval(UDoc, UEnv, Results[ri], Ctx(1))
 Out == UnmarshalCall(UDoc, UEnv, Forms[fi], Types[ti], Res, MayRev(Results[ri]))
 
 \* laws: only a non-nil pointer to a struct or slice can succeed; a struct needs exactly one node
+\* the types added for large values and bare attribute tags are filled, not rejected (a wrongly shaped field would make the whole
+\* call an expected error and the case vacuous)
+ASSUME \A i \in 1..Len(Types) : (Types[i].k = "struct" /\ \E j \in 1..Len(Types[i].f) : Types[i].f[j].tag.op = "num" /\ Types[i].f[j].tag.v.c \in {"pow2", "named"})
+          => ~IsUErr(UnmarshalCall(UDoc, UEnv, "ptr", Types[i], Eval(UDoc, UEnv, Results[1], Ctx(1)), FALSE))
 Laws == Ready =>
   /\ (Forms[fi] # "ptr" => IsUErr(Out))
   /\ (StripPtr(Types[ti]).k \notin {"struct", "slice"} => IsUErr(Out))
